@@ -27,6 +27,7 @@ EXPLANATION = (
     "A4 (error conversion) is decided under C27/E4. Numeric results for all operands and float formatting are value-level and not decided."
     " Added after seed round 6: A10 arg/3 folded for N = 0..3 on a term of arity 2: positions 1..arity select args[N-1], everything else fails."
     " Added after seed round 7: A10 also requires that arg/3 hands back the term with the unified value in place; A11 functor/3 constructs over distinct fresh variables; A12 no function of the builtin / unification / extern modules writes into a mutable default parameter (positive example matched on every run)."
+    " Added after seed round 8: A7 also requires that a comparison builtin leaves early only on `is None` tests of its operands."
 )
 TECHNIQUE = "static analysis: documentation/table agreement, abstract operator semantics vs frozen Prolog table, call-mode table consistency"
 LEVEL_TEXT = EXPLANATION
@@ -290,6 +291,24 @@ def rule_a7(repo, col):
             if isinstance(st, ast.Assign) and isinstance(st.targets[0], ast.Name) and isinstance(st.value, ast.Call) and isinstance(st.value.func, ast.Attribute) \
                     and st.value.func.attr == "compute_value" and isinstance(st.value.func.value, ast.Name):
                 vals[st.targets[0].id] = st.value.func.value.id
+        # operands computed by a helper that returns the pair (v1, v2) = (x.compute_value(..), y.compute_value(..)) of its first two parameters (inlining bound 1)
+        for st in walk_no_nested(f.node):
+            if isinstance(st, ast.Assign) and isinstance(st.targets[0], ast.Tuple) and len(st.targets[0].elts) == 2 and all(isinstance(e_, ast.Name) for e_ in st.targets[0].elts) \
+                    and isinstance(st.value, ast.Call) and isinstance(st.value.func, ast.Name) and st.value.func.id in m.functions and len(st.value.args) >= 2:
+                h = m.functions[st.value.func.id]
+                hv = {}
+                for hs in walk_no_nested(h.node):
+                    if isinstance(hs, ast.Assign) and isinstance(hs.targets[0], ast.Name) and isinstance(hs.value, ast.Call) and isinstance(hs.value.func, ast.Attribute) \
+                            and hs.value.func.attr == "compute_value" and isinstance(hs.value.func.value, ast.Name):
+                        hv[hs.targets[0].id] = hs.value.func.value.id
+                hr = [r for r in walk_no_nested(h.node) if isinstance(r, ast.Return) and isinstance(r.value, ast.Tuple) and len(r.value.elts) == 2]
+                if len(hr) == 1:
+                    for tgt, el in zip(st.targets[0].elts, hr[0].value.elts):
+                        src_param = hv.get(norm(el))
+                        if isinstance(el, ast.Call) and isinstance(el.func, ast.Attribute) and el.func.attr == "compute_value" and isinstance(el.func.value, ast.Name):
+                            src_param = el.func.value.id
+                        if src_param in h.params and h.params.index(src_param) < len(st.value.args) and isinstance(st.value.args[h.params.index(src_param)], ast.Name):
+                            vals[tgt.id] = st.value.args[h.params.index(src_param)].id
         rets = [r for r in walk_no_nested(f.node) if isinstance(r, ast.Return) and isinstance(r.value, ast.Compare)]
         if len(rets) != 1 or len(rets[0].value.ops) != 1:
             raise AnalysisError("%s: comparison return not understood" % f.name)
